@@ -62,6 +62,9 @@ def cases(tier):
         if n >= 2:
             add('bit length halved', tamper_statement={'op': 'bit_length', 'n': n // 2})
         add('value generator replaced', tamper_statement={'op': 'h_base'})
+        add('a blinding generator appended', tamper_statement={'op': 'g_append'})
+        if x > 1:
+            add('the last blinding generator removed', tamper_statement={'op': 'g_drop_last'})
         for k in range(x):
             add('blinding generator %d replaced' % k, tamper_statement={'op': 'g_base', 'k': k})
         add('transcript initial state', verify_label='alt')
@@ -71,12 +74,28 @@ def cases(tier):
     # the altered triple inside a batch: largest / not first positions (generator checks are per batch)
     for (n, x) in [(4, 1), (2, 2)]:
         small = {'m': 1, 'cap': 1}
-        for ts in ({'op': 'h_base'}, {'op': 'g_base', 'k': x - 1}, {'op': 'bit_length', 'n': 2 * n}):
+        for ts in ({'op': 'h_base'}, {'op': 'g_base', 'k': x - 1}, {'op': 'bit_length', 'n': 2 * n}, {'op': 'g_append'}) + (({'op': 'g_drop_last'},) if x > 1 else ()):
             for order in ([0, 1], [1, 0], [0, 1, 0]):
                 big = {'m': 2, 'cap': 2, 'tamper_statement': ts}
                 members = [[small, big][o] for o in order]
                 cfg = {'scenario': 'batch', 'n': n, 'x': x, 'members': members, 'actions': ['VerifyOnly', 'RecoverAndVerify']}
                 out.append({'cfg': cfg, 'name': 'batch %s with the larger member altered: %s (n%d x%d)' % (order, ts['op'], n, x), 'alter': 'batch:' + ts['op']})
+    # the blinding-generator vector of a member that is neither first nor largest
+    for (n, x) in [(4, 1), (4, 2)]:
+        for ts in ({'op': 'g_append'},) + (({'op': 'g_drop_last'},) if x > 1 else ()) + ({'op': 'g_base', 'k': x - 1}, {'op': 'h_base'}):
+            for pos in (1, 2):
+                members = [{'m': 2, 'cap': 2}, {'m': 1, 'cap': 2}, {'m': 1, 'cap': 2}]
+                members[pos] = dict(members[pos], tamper_statement=ts)
+                out.append({'cfg': {'scenario': 'batch', 'n': n, 'x': x, 'members': members, 'actions': ['VerifyOnly', 'RecoverAndVerify']},
+                            'name': 'batch of 3: generators of member %d altered: %s (n%d x%d)' % (pos, ts['op'], n, x), 'alter': 'batch:' + ts['op']})
+    # the caller transcript of ONE member of a batch replaced (each position), members with a common or with their own contexts
+    for own in (False, True):
+        for k in (2, 3):
+            for pos in range(k):
+                members = [dict({'m': 1 if i != 1 else 2, 'cap': 2}, **({'label': 'member %d' % i} if own else {})) for i in range(k)]
+                members[pos] = dict(members[pos], verify_label='alt')
+                cfg = {'scenario': 'batch', 'n': 4, 'x': 1, 'members': members, 'actions': ['VerifyOnly', 'RecoverAndVerify']}
+                out.append({'cfg': cfg, 'name': 'batch of %d (%s contexts): transcript of member %d replaced (n4 x1)' % (k, 'own' if own else 'one common', pos), 'alter': 'batch:transcript'})
     return out
 
 
